@@ -78,6 +78,14 @@ pub fn header_sets() -> Vec<Vec<(String, Vec<u8>)>> {
             ("content-language".into(), b"en".to_vec()),
             ("x-a".into(), b"1".to_vec()),
         ],
+        // a field with several values (HeaderMap::append): every value is one of the entity's headers
+        vec![
+            ("content-language".into(), b"en".to_vec()),
+            ("content-type".into(), b"text/plain".to_vec()),
+            ("content-language".into(), b"de".to_vec()),
+            ("x-a".into(), b"1".to_vec()),
+            ("x-a".into(), b"2".to_vec()),
+        ],
     ]
 }
 
